@@ -67,6 +67,7 @@ type cfgCase struct {
 	Transport     string      `json:"transport"` // local | bolt | url | default
 	Junk          bool        `json:"misspelt_directive"`
 	ViaJSON       bool        `json:"via_json"`
+	Placeholders  int         `json:"placeholders"` // bit 0: HMAC key via {env.…}; bits 1,2: absent publisher / subscriber key written as a placeholder resolving to ""
 	Order         []int       `json:"order"`
 }
 
@@ -101,10 +102,21 @@ func (cs cfgCase) caddyfile(dir string) string {
 		}
 		_, text := key(class)
 		l := name + " " + quote(text)
+		switch {
+		case class == "text" && cs.Placeholders&1 != 0:
+			l = name + " {env.VERIF_HMAC_KEY}" // a placeholder that resolves to the key
+		}
 		if alg != nil {
 			l += " " + quote(*alg)
 		}
 		ds = append(ds, l)
+	}
+	// a key given as a placeholder that resolves to nothing is no key at all
+	if cs.PubClass == "absent" && cs.Placeholders&2 != 0 {
+		ds = append(ds, "publisher_jwt {env.VERIF_UNSET_KEY}")
+	}
+	if cs.SubClass == "absent" && cs.Placeholders&4 != 0 {
+		ds = append(ds, "subscriber_jwt {env.VERIF_UNSET_KEY} HS256")
 	}
 	jwt("publisher_jwt", cs.PubClass, cs.PubAlg)
 	jwt("subscriber_jwt", cs.SubClass, cs.SubAlg)
@@ -257,7 +269,10 @@ func main() {
 	c := &h.Ctx{Seed: seed, Tier: tier, Rand: h.NewRand(seed)}
 	c.Driver = h.StartDriver()
 	r := h.NewReport("C19", "cfgcaddy", seed, tier)
-	r.Rule = "sets of `mercure` Caddyfile directives in random order through the real module in process (caddyfile dispenser -> UnmarshalCaddyfile -> Provision with a caddy context; a sample also through the JSON form): anonymous, subscriptions, write_timeout / dispatch_timeout / heartbeat in {unset, 0, valid, unparsable}, publisher_jwt / subscriber_jwt with key in {absent, HMAC secret, RSA / EC / Ed25519 public PEM} x algorithm in {unset, HS256, HS384, RS256, ES256, EdDSA, RS512, PS256, none, hs256}, publish_origins / cors_origins from a pool of valid and invalid origins, cookie_name, protocol_version_compatibility in {unset, 7, 6, 8, x}, transport in {default bolt, local, bolt{path}, transport_url}, a misspelt directive. The effective options are read back through a white-box accessor and the verification key/algorithm of each role is found by probing; compared with the model. Oracles on the implementation alone: a provisioned hub has a publisher key, and a subscriber key unless anonymous. JWKS URLs need the network: excluded. Non-trivial = configuration that gets past directive parsing; distinct by content."
+	r.Rule = "sets of `mercure` Caddyfile directives in random order through the real module in process (caddyfile dispenser -> UnmarshalCaddyfile -> Provision with a caddy context; a sample also through the JSON form): anonymous, subscriptions, write_timeout / dispatch_timeout / heartbeat in {unset, 0, valid, unparsable}, publisher_jwt / subscriber_jwt with key in {absent, a placeholder resolving to nothing, HMAC secret (literal or through an {env.…} placeholder), RSA / EC / Ed25519 public PEM} x algorithm in {unset, HS256, HS384, RS256, ES256, EdDSA, RS512, PS256, none, hs256}, publish_origins / cors_origins from a pool of valid and invalid origins, cookie_name, protocol_version_compatibility in {unset, 7, 6, 8, x}, transport in {default bolt, local, bolt{path}, transport_url}, a misspelt directive. The effective options are read back through a white-box accessor and the verification key/algorithm of each role is found by probing; compared with the model. Oracles on the implementation alone: a provisioned hub has a publisher key, and a subscriber key unless anonymous. JWKS URLs need the network: excluded. Non-trivial = configuration that gets past directive parsing; distinct by content."
+	_, hk := key("text")
+	os.Setenv("VERIF_HMAC_KEY", hk)
+	os.Unsetenv("VERIF_UNSET_KEY")
 	dir, _ := os.MkdirTemp("", "vhc-")
 	defer os.RemoveAll(dir)
 	os.Chdir(dir) // the default bolt transport writes ./bolt.db
@@ -275,6 +290,9 @@ func main() {
 	for i := 0; i < n; i++ {
 		rr := c.Rand.Fork()
 		cs := cfgCase{Anonymous: rr.Chance(1, 3), Subscriptions: rr.Chance(1, 3), Junk: rr.Chance(1, 10), ViaJSON: rr.Chance(1, 5)}
+		if rr.Chance(1, 3) {
+			cs.Placeholders = rr.Intn(8)
+		}
 		durPool := []string{"0", "10s", "1m", "90s", "2h"}
 		if rr.Chance(1, 12) {
 			durPool = []string{"abc", "10s", "-5x"}
